@@ -248,6 +248,28 @@ pub fn run_c07(out: &mut Out, tier: &str, seed: u64) {
             out.case("utils.increment", &[b(&orig)], &ok1(&v), len > 0);
         }
     }
+    // object API with differing key / digest length parameters (one-shot and incremental, keyed and not)
+    {
+        use dryoc::generichash::GenericHash;
+        use dryoc::types::*;
+        macro_rules! pair { ($out:ident, $rng:ident, $k:expr, $o:expr) => {{
+            for n in [0usize, 1, 63, 64, 127, 128, 129, 300] {
+                let msg = $rng.bytes(n);
+                let key: [u8; $k] = $rng.arr();
+                for keyed in [false, true] {
+                    $out.search_evaluations += 2;
+                    let want = sodium::generichash($o, &msg, if keyed { Some(&key[..]) } else { None });
+                    let k = StackByteArray::<$k>::from(&key);
+                    let inc = guard(|| { let mut h: GenericHash<$k, $o> = GenericHash::new(if keyed { Some(&k) } else { None })?; h.update(&msg[..n / 2]); h.update(&msg[n / 2..]); h.finalize_to_vec() });
+                    let one = guard(|| GenericHash::<$k, $o>::hash_to_vec(&msg, if keyed { Some(&k) } else { None }));
+                    let rp = json!({"op":"obj.generichash","key_length":$k,"output_length":$o,"keyed":keyed,"msg":hx(&msg),"key":hx(&key)});
+                    if inc.clone().ok() != want { $out.hit("obj.generichash.incremental.differs-from-libsodium", format!("K {} O {} keyed {} len {}", $k, $o, keyed, n), rp.clone()); }
+                    if one.ok() != want { $out.hit("obj.generichash.oneshot.differs-from-libsodium", format!("K {} O {} keyed {} len {}", $k, $o, keyed, n), rp.clone()); }
+                }
+            }
+        }}; }
+        pair!(out, rng, 16, 32); pair!(out, rng, 32, 16); pair!(out, rng, 64, 32); pair!(out, rng, 16, 64); pair!(out, rng, 32, 32); pair!(out, rng, 64, 64);
+    }
 }
 
 /// all 2-way splits of every length 0..=l2 and all 3-way splits of every length 0..=l3
